@@ -52,13 +52,35 @@ template <class G> void runDj(size_t n, const std::vector<std::string> &ops, uns
     if (code != 0) line = "I " + std::to_string(code);
     line += '\n'; fputs(line.c_str(), stdout); fflush(stdout);
 }
-// WF DW|UW hex <n> : ops          DJF DW|UW hex <n> : FA i j <hex> ; ... | source
+// ---- operator== / != on two histories with arbitrary double weights ----
+template <class G> void applyF(G &g, const std::vector<std::string> &ops) {
+    for (auto &op : ops) {
+        std::istringstream is(op); std::string k, h; long i = 0, j = 0; is >> k;
+        guard([&]() -> Z {
+            if (k == "FA") { is >> i >> j >> h; g.addEdge(i, j, dblOfHex(h)); }
+            else if (k == "FS") { is >> i >> j >> h; g.setEdgeWeight(i, j, dblOfHex(h)); }
+            else if (k == "FR") { is >> i >> j; g.removeEdge(i, j); }
+            else if (k == "FC") g.clearEdges();
+            return 0; });
+    }
+}
+template <class G> void runEq(size_t n, const std::vector<std::string> &a, const std::vector<std::string> &b) {
+    G g(n), h(n); applyF(g, a); applyF(h, b);
+    emitGuarded([&] { G c(g); return Segs{Obs{(Z)(g == h), (Z)(h == g), (Z)(g != h), (Z)(h != g), (Z)(g == g), (Z)((c == g) && !(c != g))}}; });
+}
+// WF DW|UW hex <n> : ops          DJF DW|UW hex <n> : FA i j <hex> ; ... | source          EQF DW|UW hex <n> : ops | ops
 int main() {
     std::string line;
     while (std::getline(std::cin, line)) {
         auto c = line.find(':'); if (c == std::string::npos) continue;
         std::istringstream hd(line.substr(0, c)); std::string kind, cls, lk; size_t n; hd >> kind >> cls >> lk >> n;
         fputs(("CASE " + line + "\n").c_str(), stdout); fflush(stdout);
+        if (kind == "EQF") {
+            std::string body = line.substr(c + 1); auto bar = body.find('|');
+            auto a = splitOps(body.substr(0, bar)), b = splitOps(bar == std::string::npos ? "" : body.substr(bar + 1));
+            if (cls == "DW") runEq<DirectedWeightedGraph>(n, a, b); else runEq<UndirectedWeightedGraph>(n, a, b);
+            continue;
+        }
         if (kind == "DJF") {
             std::string body = line.substr(c + 1); auto bar = body.find('|');
             auto ops = splitOps(body.substr(0, bar)); unsigned src = 0; { std::istringstream q(bar == std::string::npos ? "" : body.substr(bar + 1)); q >> src; }
